@@ -25,6 +25,14 @@ func capPageSize(pageSize int) int {
 	return pageSize
 }
 
+// validatePageSize rejects negative page sizes, which would otherwise index before the start of the list.
+func validatePageSize(pageSize int32) error {
+	if pageSize < 0 {
+		return status.Errorf(codes.InvalidArgument, "page size must not be negative: %d", pageSize)
+	}
+	return nil
+}
+
 func decodePageToken(token string, pageToken *types.PageToken) error {
 	if token != "" {
 		tokenBytes, err := base64.StdEncoding.DecodeString(token)
